@@ -24,7 +24,7 @@ RULE = ("(a) request streams from a real client: generated mixes of synchronous,
 ASSUMPTIONS = ["the ledger is decoded with vlib.refcodec (independent of rpyc)", "HANDLE_CLOSE is not part of the streams"]
 
 OUTCOMES = ["value", "value", "ref", "exc", "custom", "unboxable", "unencodable", "nested", "nested-exc", "none", "sysexit",
-            "genexit", "exc-unprintable"]
+            "genexit", "exc-unprintable", "exc-hugeint"]
 
 
 class Unprintable(object):
@@ -60,6 +60,8 @@ def make_service(counters):
                 raise MyErr(token)
             if outcome == "exc-unprintable":
                 raise ValueError(token, Unprintable())
+            if outcome == "exc-hugeint":
+                raise ValueError(token, 10 ** 4400)        # cannot be rendered as text (nor repr'd) under the default digit limit
             if outcome == "sysexit":
                 raise SystemExit(token)
             if outcome == "genexit":
@@ -180,7 +182,7 @@ def check_stream(case, rec):
                     ok = got[0] == "raised" and isinstance(got[1], SystemExit) and got[1].args == (tok,)
                 elif outcome == "genexit":
                     ok = got[0] == "raised" and isinstance(got[1], GeneratorExit) and got[1].args == (tok,)
-                elif outcome == "exc-unprintable":
+                elif outcome in ("exc-unprintable", "exc-hugeint"):
                     ok = got[0] == "raised" and isinstance(got[1], ValueError) and got[1].args[:1] == (tok,)
                 elif outcome in ("unboxable", "unencodable"):
                     ok = got[0] == "raised" and isinstance(got[1], Exception) and not isinstance(got[1], (EOFError, TimeoutError))
